@@ -175,6 +175,8 @@ func runEBSPReader(data []byte, ops []rop) ([]string, []string) {
 			} else {
 				val = "0"
 			}
+		case 't':
+			val = trailClass(r.ReadRbspTrailingBits())
 		}
 		e := 0
 		if r.AccError() != nil {
@@ -184,6 +186,18 @@ func runEBSPReader(data []byte, ops []rop) ([]string, []string) {
 		obs = append(obs, fmt.Sprintf("%s/%d/%d/%d/%d", val, e, r.NrBytesRead(), r.NrBitsRead(), r.NrBitsReadInCurrentByte()))
 	}
 	return vals, obs
+}
+
+// trailClass projects the return value of ReadRbspTrailingBits: nil / no leading 1 / a second 1
+func trailClass(err error) string {
+	switch {
+	case err == nil:
+		return "T0"
+	case strings.Contains(err.Error(), "another"):
+		return "T2"
+	default:
+		return "T1"
+	}
 }
 
 func runPlainReader(data []byte, ops []rop) []string {
@@ -262,6 +276,9 @@ func genWops(r *hx.Rng) []wop {
 				v = 0xffffffff - uint64(r.Intn(2))
 			default:
 				v = r.U64() & 0xffffffff
+				if r.Intn(4) == 0 { // beyond the proved range (ue < 2^32): up to 48 bits
+					v = r.U64() >> uint(r.Range(16, 31))
+				}
 			}
 			ops = append(ops, wop{k: 'u', v: v})
 		case 8:
@@ -289,10 +306,15 @@ func genWops(r *hx.Rng) []wop {
 	return ops
 }
 
-func genPlainWops(r *hx.Rng) []wop {
+// genPlainWops: mid = false gives value ops followed by one Flush (the round-trip shape);
+// mid = true also flushes in the middle and may omit the final Flush (correspondence only).
+func genPlainWops(r *hx.Rng, mid bool) []wop {
 	n := r.Range(0, 20)
 	ops := make([]wop, 0, n+1)
 	for i := 0; i < n; i++ {
+		if mid && r.Intn(10) == 0 {
+			ops = append(ops, wop{k: 'l'})
+		}
 		if r.Intn(5) == 0 {
 			ops = append(ops, wop{k: 'f', v: uint64(r.Intn(2))})
 		} else {
@@ -300,14 +322,18 @@ func genPlainWops(r *hx.Rng) []wop {
 			ops = append(ops, wop{k: 'b', v: genValue(r, w), w: w})
 		}
 	}
-	ops = append(ops, wop{k: 'l'})
+	if !mid || r.Intn(3) != 0 {
+		ops = append(ops, wop{k: 'l'})
+	}
 	return ops
 }
 
 func genRops(r *hx.Rng, n int) []rop {
 	ops := make([]rop, 0, n)
 	for i := 0; i < n; i++ {
-		switch r.Intn(10) {
+		switch r.Intn(11) {
+		case 10:
+			ops = append(ops, rop{k: 't'})
 		case 0, 1, 2, 3:
 			ops = append(ops, rop{k: 'b', w: r.Range(0, 32)})
 		case 4:
@@ -394,6 +420,9 @@ func corr(seed uint64, n int, exh int) {
 		emitW("E", ops, b, tr)
 		// reader on the writer's output with the matching ops, then a few extra
 		rops := matchingRops(ops)
+		if r.Intn(3) == 0 {
+			rops = append(rops, rop{k: 'm'}, rop{k: 't'})
+		}
 		rops = append(rops, genRops(r, r.Intn(4))...)
 		_, obs := runEBSPReader(b, rops)
 		emitR("E", b, rops, obs)
@@ -406,7 +435,7 @@ func corr(seed uint64, n int, exh int) {
 		_, obs2 := runEBSPReader(data, rops2)
 		emitR("E", data, rops2, obs2)
 		// plain writers / reader
-		pops := genPlainWops(r)
+		pops := genPlainWops(r, i%2 == 1)
 		pb := runPlainWriter(pops)
 		emitW("P", pops, pb, "-")
 		fb := runFixedWriter(pops)
@@ -420,6 +449,7 @@ func corr(seed uint64, n int, exh int) {
 		}
 		emitR("P", pb, srs, runPlainReader(pb, srs))
 	}
+	corrExt(hx.NewRng(seed^0x13e), n, &id)
 	out.Flush()
 }
 
@@ -497,6 +527,7 @@ func search(seed uint64, n int, exh int) {
 				ops = append(ops, o)
 			}
 		}
+		evals += searchExt(r, append([]wop{}, ops...))
 		evals++
 		ops = append(ops, wop{k: 't'})
 		b, _ := runEBSPWriter(ops)
@@ -525,7 +556,7 @@ func search(seed uint64, n int, exh int) {
 			k++
 		}
 		// plain writer/reader
-		pops := genPlainWops(r)
+		pops := genPlainWops(r, false)
 		for j := range pops {
 			if pops[j].k == 'b' {
 				pops[j].v &= (uint64(1) << uint(pops[j].w)) - 1
